@@ -63,6 +63,40 @@ func (Engine) Shrink(trace []byte, keep func([]byte) bool, sb core.ShrinkBudget)
 	if hi < len(tr.Blocks) {
 		tr.Blocks = tr.Blocks[:hi]
 	}
+	// 1b. blocks in the middle (replays of transactions in removed blocks become placeholders)
+	{
+		n := len(tr.Blocks)
+		buildB := func(k []int) *Trace {
+			c := tr.Clone()
+			newIdx := map[int]int{}
+			var blocks []Block
+			for _, i := range k {
+				newIdx[i] = len(blocks)
+				blocks = append(blocks, c.Blocks[i])
+			}
+			for bi := range blocks {
+				for ti := range blocks[bi].Txs {
+					t := &blocks[bi].Txs[ti]
+					if t.Kind == "replay" {
+						if nb, ok := newIdx[t.ReplayBlock]; ok {
+							t.ReplayBlock = nb
+						} else {
+							*t = TxSpec{Kind: "skip"}
+						}
+					}
+				}
+			}
+			c.Blocks = blocks
+			if len(c.Config.CrashBlocks) > 0 {
+				c.Config.CrashBlocks = nil
+			}
+			return c
+		}
+		kb := core.DDMin(n, func(k []int) bool { return try(buildB(k)) }, b)
+		if len(kb) < n {
+			tr = buildB(kb)
+		}
+	}
 	// 2. replicas: fewer is simpler
 	for n := 1; n < len(tr.Config.Replicas); n++ {
 		c := tr.Clone()
